@@ -53,11 +53,16 @@ def run(repo: Repo, tier: str) -> Report:
             if s["target"] != out:
                 continue
             stores += 1
-            src = None
-            for n in cfg.stmt_nodes():
-                if n.kind == "stmt" and n.stmt.lineno == s["line"]:
-                    src = n.stmt
             lit = s["value_type"].startswith("Literal")
+            src = None
+            cands = [n.stmt for n in cfg.stmt_nodes() if n.kind == "stmt" and n.stmt.lineno == s["line"] and isinstance(n.stmt, ast.Assign)
+                     and isinstance(n.stmt.targets[0], ast.Subscript) and ast.unparse(n.stmt.targets[0].value) == out]
+            # several syntactic stores may share the line (a conditional expression split into arms): take the one whose value kind matches
+            for c_ in cands:
+                if isinstance(c_.value, ast.Constant) == lit:
+                    src = c_
+            if src is None and cands:
+                src = cands[-1]
             if lit:
                 ob("R-NARROW", "constant stored into the output fits", True, s["value_type"], src, line=s["line"], kind="literal")
                 continue
@@ -158,26 +163,21 @@ def run(repo: Repo, tier: str) -> Report:
     no_early_exit(rep, StoreCollector(k.node, FILE, loop_atoms_by_name=True, strict=False).run(), FILE, "lroo", "scan over the positions of ones")
     # ---- croo
     m = repo.method("hdc.algo.accessors", "PixelAlgorithms", "croo")
-    assigns = {st.targets[0].id: st for st in m.body if isinstance(st, ast.Assign) and isinstance(st.targets[0], ast.Name)}
-    chain = [
-        ("xsort", "self._obj.sortby('time', ascending=False)", "time steps are ordered newest first whatever the stored order"),
-        ("xtemp", None, None),
-    ]
-    xs = assigns.get("xsort")
-    ob("R-FORMULA", "croo orders time steps newest first, whatever the stored order", xs is not None and
-       norm_stmt(xs.value) == "self._obj.sortby('time', ascending=False)", norm_stmt(xs) if xs is not None else "", xs if xs is not None else "xsort",
-       fn="PixelAlgorithms.croo", file=AFILE)
-    body_txt = [norm_stmt(st) for st in m.body if isinstance(st, ast.Assign)]
-    want_chain = ["xtemp = xsort.where(xsort == 1).cumsum('time', skipna=False)",
-                  "xtemp = xtemp.where(~xtemp.isnull(), 0).argmax('time')",
-                  "x_crbt = xtemp + xsort.isel(time=0)"]
-    roles = ["ones are accumulated until the first cell that is not 1 (cumsum without NaN skipping)",
-             "the run length before that cell is the argmax after nulls -> 0",
-             "the latest step itself is added (0 if it is not 1)"]
-    for w, role in zip(want_chain, roles):
-        ob("R-FORMULA", role, w in body_txt, f"statements: {body_txt}", w, fn="PixelAlgorithms.croo", file=AFILE)
+    from ..rules import flatten_return
+    flat = flatten_return(m)
+    S_ = "self._obj.sortby('time', ascending=False)"
+    T1 = f"{S_}.where({S_} == 1).cumsum('time', skipna=False)"
+    T2 = f"{T1}.where(~{T1}.isnull(), 0).argmax('time')"
+    R_ = f"{T2} + {S_}.isel(time=0)"
+    stages = [("croo orders time steps newest first, whatever the stored order", S_),
+              ("ones are accumulated until the first cell that is not 1 (cumsum without NaN skipping)", T1),
+              ("the run length before that cell is the argmax after nulls -> 0", T2),
+              ("the latest step itself is added (0 if it is not 1)", R_)]
     ret = [st for st in m.body if isinstance(st, ast.Return)]
-    ob("R-FORMULA", "croo returns that sum", bool(ret) and ast.unparse(ret[0].value) == "x_crbt", "", ret[0] if ret else "return",
+    for role, want in stages:
+        ob("R-FORMULA", role, flat is not None and want in flat, f"croo returns `{flat}`; required sub-expression `{want}`", want[-80:],
+           fn="PixelAlgorithms.croo", file=AFILE)
+    ob("R-FORMULA", "croo returns that sum", flat == R_ or flat == f"{S_}.isel(time=0) + {T2}", f"croo returns `{flat}`; required `{R_}`", ret[0] if ret else "return",
        fn="PixelAlgorithms.croo", file=AFILE)
 
     # ---- site
